@@ -22,7 +22,9 @@ package tally
 
 import (
 	"bytes"
+	"strings"
 	"sync"
+	"unicode/utf8"
 )
 
 var (
@@ -144,15 +146,18 @@ func (c *ValidCharacters) sanitizeFn(repChar rune) SanitizeFn {
 	return func(value string) string {
 		var buf *bytes.Buffer
 		for idx, ch := range value {
-			// first check if the provided character is valid
+			// first check if the provided character is valid; an invalid byte
+			// (which decodes as utf8.RuneError of width 1, unlike an encoded
+			// U+FFFD) never is, even if U+FFFD itself is a valid character
 			validCurr := false
-			for i := 0; !validCurr && i < len(c.Ranges); i++ {
+			invalidByte := ch == utf8.RuneError && !strings.HasPrefix(value[idx:], string(utf8.RuneError))
+			for i := 0; !invalidByte && !validCurr && i < len(c.Ranges); i++ {
 				if ch >= c.Ranges[i][0] && ch <= c.Ranges[i][1] {
 					validCurr = true
 					break
 				}
 			}
-			for i := 0; !validCurr && i < len(c.Characters); i++ {
+			for i := 0; !invalidByte && !validCurr && i < len(c.Characters); i++ {
 				if c.Characters[i] == ch {
 					validCurr = true
 					break
